@@ -5,7 +5,7 @@ import UralModel.Lemmas.ReAlt
 /-!
 # C05 — statements added after the independent audit
 
-* `option_strip_trailing_slash_off'` / `trailing_slash_kept` — what "switching
+* `option_strip_trailing_slash_off_exact` / `trailing_slash_kept` — what "switching
   `strip_trailing_slash` off preserves the trailing slash exactly" means, and the one exception,
   the ROOT RULE (a declared reading: `ASSUMPTIONS` of `harness/props/C05.py`): the resolved path of
   the root is the empty path (`normpath("/") == ""`), and a path that the AMP / index steps leave
@@ -61,7 +61,7 @@ theorem normPath_keep (o : Normalize.Opts) (hs : o.stripTrailingSlash = false) (
 steps (`pathSteps`: the other options' business).  The result path is the final (un)quoting of
 `p3` itself — nothing is removed — unless `p3` is exactly `/` (ROOT RULE: then `/` or the empty
 path, depending on query and fragment); in particular a path `a/` with `a ≠ ""` keeps its slash. -/
-theorem option_strip_trailing_slash_off' (puny : Str → Str) (o : Normalize.Opts) (hp : Bool) (p : Parsed) :
+theorem option_strip_trailing_slash_off_exact (puny : Str → Str) (o : Normalize.Opts) (hp : Bool) (p : Parsed) :
     let o' := { o with stripTrailingSlash := false }
     let A := normComps puny o' hp p
     let p3 := pathSteps o' p.path
@@ -118,7 +118,7 @@ theorem trailing_slash_kept (puny : Str → Str) (o : Normalize.Opts) (hp : Bool
     simp only
     rw [← hu, resolveUnquoted_trailing u h1 h2]
     rcases hamp with ha | ha <;> rcases hidx with hi | hi <;> simp [ha, hi]
-  exact (option_strip_trailing_slash_off' puny o hp p).2.2 (normpath u) h3 hp3
+  exact (option_strip_trailing_slash_off_exact puny o hp p).2.2 (normpath u) h3 hp3
 
 /-- non-vacuity, and the root rule at work (all with `strip_trailing_slash=False`) -/
 example :
